@@ -133,6 +133,7 @@ class Sched:
         self.status = None       # 'done' | 'deadlock' | 'horizon'
         self.trace_files = tuple(trace_files)
         self.timeouts_fired = 0
+        self.trace = []          # (thread name, label it proceeds past)
 
     # -- used by scenario code ---------------------------------------------
     def spawn(self, target, *args, name=None, **kwargs):
@@ -231,6 +232,7 @@ class Sched:
             elif t.state == 'blocked':
                 t.state = 'runnable'
             self.current = t
+            self.trace.append((t.name, kind, t.label))
             t.sem.release()
             self.ctrl.acquire()
         return self.status
